@@ -8,6 +8,7 @@ import (
 
 	"github.com/bits-and-blooms/bitset"
 	"github.com/gordian-engine/gordian/internal/gchan"
+	"github.com/gordian-engine/gordian/internal/verifhook"
 	"github.com/gordian-engine/gordian/tm/tmconsensus"
 	"github.com/gordian-engine/gordian/tm/tmengine/tmelink"
 	"github.com/gordian-engine/gordian/tm/tmp2p"
@@ -55,6 +56,8 @@ func (s *ChattyStrategy) Start(link <-chan tmelink.NetworkViewUpdate) {
 }
 
 func (s *ChattyStrategy) kernel(ctx context.Context) {
+	defer verifhook.Catch(ctx, "tmgossip.chatty")
+
 	defer close(s.kernelDone)
 
 	ctx, task := trace.NewTask(ctx, "ChattyStrategy.kernel")
